@@ -8,8 +8,9 @@ from harness.common import bud
 from harness.sessions import SB
 
 PROP = "C20"
-MODULES = ["CassisModel.Properties.C20", "CassisModel.Properties.C20Ids", "CassisModel.Properties.C20Sens", "CassisModel.Properties.C20Iso", "CassisModel.Properties.C20IsoColl"]
+MODULES = ["CassisModel.Properties.C20", "CassisModel.Properties.C20Ids", "CassisModel.Properties.C20Sens", "CassisModel.Properties.C20Iso", "CassisModel.Properties.C20IsoColl", "CassisModel.Properties.C20IsoJsonColl"]
 THEOREMS = [
+    "Cassis.Comparable.render_json_roundtrip_coll",
     "Cassis.Comparable.render_xmi_roundtrip_coll",
     "Cassis.Comparable.renderVal_budget_saturated",
     "Cassis.Comparable.renderFrom_iso",
@@ -291,7 +292,15 @@ def mutate(spec, rng, kind):
             elif ak == "is":
                 els = list(els) + [9]
             elif ak == "ss":
-                els = list(els) + ["more"]
+                # changes that a naive joining of the elements would not show: an element split at ", ", an empty string added
+                r_ = rng.random()
+                if r_ < 0.35:
+                    els = list(els) + [""]
+                elif r_ < 0.7 and els:
+                    els = [x for e_ in els for x in ((e_ + ", b") if e_ == els[0] and e_ is not None else e_,)]
+                    els = els[:1] + ["b"] + els[1:] if rng.random() < 0.5 else els   # either "x, b" or "x","b" - both differ from the base
+                else:
+                    els = list(els) + ["more"]
             else:
                 continue
             n["arrs"][f] = (ak, els)
